@@ -14,6 +14,7 @@ from .. import pollute
 
 BEFORE_CASE = pollute.wreck        # state-leak adversary: see vmon/pollute.py
 
+PYTHON_O_STRIDE = {"quick": 4, "thorough": 2}      # every n-th case is repeated in an interpreter started with -O
 RULE = ("family x parameters x formula class (CNF, OPB) x graph representation (cnfgen / networkx): php m,n in 0..4 x "
         "functional x onto; graph php and subset cardinality on every bipartite graph with sides <= 3 (<= (3,2) in quick) "
         "plus seeded larger ones; binary php m <= 4, n <= 8; relativized php (m,t,n) in 0..3^3; counting M <= 7, p <= 4; "
